@@ -132,6 +132,25 @@ func registerCryptoIntrinsics(m *Machine) {
 		cell := &Cell{Epoch: m.epoch, V: OpaqueV{Kind: "ethpub", ID: id}}
 		return TupleV{PtrV{C: cell}, IfaceV{}}
 	}
+	// go-ethereum keccak helpers (variadic [][]byte): ideal hash of the concatenation
+	keccak := func(m *Machine, a []Value) []*Term {
+		var in []*Term
+		for _, c := range a[0].(SliceV).cells() {
+			in = append(in, m.bytesOfSlice(m.loadCell(c).(SliceV))...)
+		}
+		return m.idealHash("keccak256", 32, in)
+	}
+	I["github.com/ethereum/go-ethereum/crypto.Keccak256Hash"] = func(m *Machine, fr *frame, a []Value, c *ssa.CallCommon) Value {
+		out := keccak(m, a)
+		av := make(ArrayV, 32)
+		for i, b := range out {
+			av[i] = b
+		}
+		return av
+	}
+	I["github.com/ethereum/go-ethereum/crypto.Keccak256"] = func(m *Machine, fr *frame, a []Value, c *ssa.CallCommon) Value {
+		return m.sliceFromBytes(keccak(m, a))
+	}
 	// signatures
 	I[sg+"Deserialize"] = func(m *Machine, fr *frame, a []Value, c *ssa.CallCommon) Value {
 		bs := m.bytesOfSlice(a[0].(SliceV))
